@@ -155,7 +155,7 @@ pub fn run(req: &RunRequest) -> Value {
         let setup = SimSetup {
             cluster,
             net,
-            virt_cap: Duration::from_secs(900),
+            virt_cap: Duration::from_secs(3 * 3600),
             world_oracles: vec!["c02.stream_id_reuse"],
             panic_is_violation: true,
             rlimit_as: None,
@@ -515,8 +515,19 @@ async fn main(plan: Plan) -> Outcome {
         for c in w.conns.iter_mut() {
             c.cut = None;
         }
-        // Partitions heal. A connection attempt begun just before hangs until the connect
-        // timeout (5 s) and is followed by the pool's back-off.
+        // Partitions heal - after an outage that may have lasted long (the pools' reconnect
+        // back-off has then been through many rounds). A connection attempt begun just
+        // before hangs until the connect timeout (5 s) and is followed by the back-off.
+        let partitioned_now = w.cluster.nodes.iter().any(|n| n.partitioned);
+        drop(w);
+        if partitioned_now {
+            let outage = [0u64, 0, 60, 20 * 60, 90 * 60][tape::choose("c10:outage", 5) as usize] * SEC;
+            if outage > 0 {
+                world::world().probe("long_outage");
+                world::sleep_ns(outage).await;
+            }
+        }
+        let mut w = world::world();
         for n in w.cluster.nodes.iter_mut() {
             if n.partitioned {
                 n.partitioned = false;
